@@ -83,6 +83,8 @@ def run(ctx):
                  {"k": "data", "mn": "DW", "items": [{"t": "e", "e": {"o": "$"}}]}, {"k": "label", "nm": "tail"}]
         R.add(stmts)
         ncells += 1
+    import corpus
+    ncorpus = len(corpus.add(R, tags=("C12", "C05")))      # real programs as written (/verif/corpus)
     R.run()
     ver = ctx.validate("Trace_Asm", R.traces())
     F = Findings()
@@ -93,7 +95,7 @@ def run(ctx):
     mc = [s for s in ctx.tlc_stats if s["name"].startswith("mc:")]
     cov = {
         "states": sum(s["distinct"] for s in ctx.tlc_stats), "transitions": sum(s["generated"] for s in ctx.tlc_stats),
-        "traces_validated_against_impl": len(R.cases),
+        "traces_validated_against_impl": len(R.cases), "corpus_programs": ncorpus,
         "trace_events": ver["events"], "statements_judged_by_reference": judged,
         "programs_with_a_diagnostic": diagd, "cells": ncells, "distinct_programs": distinct,
         "evaluations": len(R.cases), "distinct_nontrivial": distinct - diagd,
